@@ -1,13 +1,15 @@
-import TinsModel.Wire.L2.Family
-import TinsModel.Basic.CursorLemmas
-import TinsModel.Basic.CodecLemmas
-import TinsModel.Wire.ChainLemmas
-import TinsModel.Wire.IfaceLemmas
+import TinsModel.Wire.L2.ThFamily
+import TinsModel.Wire.L2.ThChain
 /-
-  Per-layer theorems of the L2 family for the four wire properties (C01 parse_safe, C02 writesOnly,
-  C03 reparse, C04 codec inverses).  See TinsModel/Wire/Transport/Theorems.lean for the worked example (UDP).
--/
-namespace Tins.Wire.L2
-open Tins Tins.Wire
+  Per-layer and family-level theorems of the L2 family for the four wire properties.  Index:
 
-end Tins.Wire.L2
+  Lemmas.lean        closed forms of the stream operations, `ParseSafe`, exact-size chain theorems (`ChainOK`,
+                     `serialize_ok_at`, `serializeInto_frame_at`) — EthernetII / Dot1Q meet the per-layer obligation only
+                     on the regions `PDU::serialize` hands out, because they skip over `inner_pdu()->size()` bytes
+  Th<Class>.lean     <cls>_parse_eq (closed form), _parse_safe, _parse_consumes (C01); _writesOnly / _writesOnlyAt (C02);
+                     _reparse, _reparse_view, _tag_kept (C03); _apply_wf / _apply_inv, setters vs getters, codecs (C04)
+  ThLlcReparse.lean  the known finding KF-C04-L2-1: `llc_api_reparse` (full statement), `llc_api_reparse_fails`
+                     (witness), `llc_api_reparse_partial` / `llc_api_reparse_holds_without_infos` (proved part)
+  ThFamily.lean      l2_parse_safe, l2_parse_consumes, l2_parse_inv, l2_mk_inv, l2_apply_inv, l2_writesOnlyAt
+  ThChain.lean       l2_chain_serialize_total, l2_chain_frame over the registry's `sems`
+-/
